@@ -200,3 +200,9 @@ class IOSuite(cc.ChanSuite):
 
 
 SUITES = [IOSuite()]
+
+
+def extra_obligations(tier):
+    """the translated part of the model: regenerated from the current source and re-proved equal to what the theorems use"""
+    from vlib import gen
+    return gen.obligations(only=["gen_channel_constants_are_the_model"])
